@@ -262,7 +262,7 @@ def _cleanup(*paths):
 
 
 def write_replay(prop, v, n):
-    d = os.path.join(VERIF, 'replays', prop)
+    d = os.path.join(VERIF, 'replays', prop + ('-drill' if os.environ.get('VERIF_DRILL') else ''))
     os.makedirs(d, exist_ok=True)
     h = hashlib.sha1(json.dumps(v, sort_keys=True, default=str).encode()).hexdigest()[:12]
     p = os.path.join(d, '%s.json' % h)
@@ -296,7 +296,7 @@ def run_check(prop, tier, seed, replay=None):
 
     if not replay:
         import shutil
-        shutil.rmtree(os.path.join(VERIF, 'replays', prop), ignore_errors=True)
+        shutil.rmtree(os.path.join(VERIF, 'replays', prop + ('-drill' if os.environ.get('VERIF_DRILL') else '')), ignore_errors=True)
     known = load_findings(prop)
     classify = getattr(mod, 'classify', lambda v: v.get('mech'))
     matched = {}
@@ -344,7 +344,7 @@ def run_check(prop, tier, seed, replay=None):
         'wall_s': round(wall, 2),
         'violations': len(fresh),
     }
-    if replay is None:
+    if replay is None and not os.environ.get('VERIF_DRILL'):
         os.makedirs(os.path.join(VERIF, 'evidence'), exist_ok=True)
         with open(os.path.join(VERIF, 'evidence', '%s.json' % prop), 'w') as f:
             json.dump(ev, f, indent=1, sort_keys=True, default=str)
